@@ -179,6 +179,23 @@ func (s *Script) Match(data any) bool {
 	return 0 < len(stack)
 }
 
+// matchRoot is Match with the document root for $ rooted operands. A nil root
+// means the data is the root as it is for Match.
+func (s *Script) matchRoot(root, data any) bool {
+	if root == nil {
+		return s.Match(data)
+	}
+	stack := []any{}
+	if node, ok := data.(gen.Node); ok {
+		ns, _ := s.evalWithRoot(stack, gen.Array{node}, root)
+		stack, _ = ns.([]any)
+	} else {
+		ns, _ := s.evalWithRoot(stack, []any{data}, root)
+		stack, _ = ns.([]any)
+	}
+	return 0 < len(stack)
+}
+
 // Eval is primarily used by the Expr parser but is public for testing.
 func (s *Script) Eval(stack, data any) any {
 	ns, _ := s.evalWithRoot(stack, data, nil)
